@@ -174,7 +174,9 @@ func (t *term) serve(r *rand.Rand, sc termScript, done <-chan struct{}) {
 }
 
 var c12Cmds = []consts.JT808CommandType{consts.P8103SetTerminalParams, consts.P8104QueryTerminalParams, consts.P8801CameraShootImmediateCommand,
-	consts.P9101RealTimeAudioVideoRequest, consts.P9102AudioVideoControl, consts.P9205QueryResourceList, consts.P9206FileUploadInstructions}
+	consts.P9101RealTimeAudioVideoRequest, consts.P9102AudioVideoControl, consts.P9205QueryResourceList, consts.P9206FileUploadInstructions,
+	// command types the connection has no handler for: written and answered like any other
+	consts.P8300TextInfoDistribution, consts.P8105TerminalControl}
 
 func init() {
 	// live-c12 <terminals> <commands per caller> <trace>
@@ -202,6 +204,9 @@ func init() {
 		}
 		var wg sync.WaitGroup
 		var kid atomic.Int64
+		// nobody parks a writer in this phase: a command that was written is completed by its writer - response, or time-out on
+		// time (within 700 ms) - and not by the caller's own last-resort deadline a second later
+		l.slackMs.Store(700)
 		for ti, t := range terms {
 			for c := 0; c < 3; c++ { // three concurrent callers per terminal
 				wg.Add(1)
@@ -226,6 +231,7 @@ func init() {
 			}
 		}
 		wg.Wait()
+		l.slackMs.Store(0)
 		// more time-outs than the completion queue holds expire while the writer is held in a write callback:
 		// every caller still gets its time-out
 		{
@@ -428,6 +434,7 @@ func init() {
 			{"timeouts-of-different-lengths-in-adverse-order", nil},
 			{"burst-in-one-segment-then-reset", nil},
 			{"messages-then-a-close-arrive-while-the-writer-is-held-and-callers-without-a-time-out-wait", nil},
+			{"burst-then-a-damaged-frame", nil},
 			{"close-before-join", nil},
 			{"close-mid-frame", nil},
 			{"random-storm", nil},
@@ -647,6 +654,33 @@ func init() {
 						t.close(false)
 						wg.Wait()
 						l.writeHold.Store(nil)
+					}
+				case "burst-then-a-damaged-frame":
+					// valid frames in one segment, a frame with a wrong check code in the next one a moment later: the reader gives the
+					// connection up while the writer is still answering what it was handed
+					for rep := 0; rep < 6; rep++ {
+						if rep > 0 {
+							ph := append([]byte{}, phone...)
+							ph[1] = byte(0x50 + rep)
+							t = l.dial(ph, 0)
+							l.rec.log(t.idx, "D", "scenario", "name", sc.name)
+						}
+						t.send(t.frame(0x0002, nil))
+						t.waitRecv(1, 2*time.Second)
+						var burst []byte
+						for i := 0; i < 12; i++ {
+							burst = append(burst, t.frame([]int{0x0002, 0x0200}[i%2], randBytes(r, 28)[:28*(i%2)])...)
+						}
+						bad := t.frame(0x0002, nil)
+						bad[len(bad)-2] ^= 0x01
+						if bad[len(bad)-2] == 0x7e || bad[len(bad)-2] == 0x7d {
+							bad[len(bad)-2] ^= 0x03
+						}
+						t.send(burst)
+						time.Sleep(time.Duration(r.Intn(300)) * time.Microsecond)
+						t.send(bad)
+						time.Sleep(30 * time.Millisecond)
+						t.close(false)
 					}
 				case "close-before-join":
 					call(t, key, 100*time.Millisecond, &wg)
